@@ -50,6 +50,7 @@ class LoadParser(handler.ContentHandler):
         self.doc = document
         self.data = []
         self.level = 0
+        self.depth = 0                 # nesting depth of the current element, the root element is 1
         self.parse = False
 
     def characters(self, data):
@@ -58,9 +59,13 @@ class LoadParser(handler.ContentHandler):
         self.data.append(data)
 
     def startElementNS(self, tag, qname, attrs):
-        if tag in self.triggers:
+        self.depth = self.depth + 1
+        # The sections are the children of the root element; an element of that name further down
+        # (draw:object may hold a whole office:document) is ordinary content
+        section = self.depth == 2 and tag in self.triggers
+        if section:
             self.parse = True
-        if self.doc._parsing.rsplit('/', 1)[-1] != "styles.xml" and tag == (OFFICENS, 'font-face-decls'):
+        if section and self.doc._parsing.rsplit('/', 1)[-1] != "styles.xml" and tag == (OFFICENS, 'font-face-decls'):
             self.parse = False
         if self.parse == False:
             return
@@ -81,7 +86,9 @@ class LoadParser(handler.ContentHandler):
         except AttributeError as v:
             print ("Error: %s" % v)
 
-        if tag == (OFFICENS, 'automatic-styles'):
+        if not section:
+            self.parent.addElement(e, check_grammar=False)
+        elif tag == (OFFICENS, 'automatic-styles'):
             e = self.doc.automaticstyles
         elif tag == (OFFICENS, 'body'):
             e = self.doc.body
@@ -106,6 +113,7 @@ class LoadParser(handler.ContentHandler):
 
 
     def endElementNS(self, tag, qname):
+        self.depth = self.depth - 1
         if self.parse == False:
             return
         self.level = self.level - 1
@@ -115,5 +123,5 @@ class LoadParser(handler.ContentHandler):
         self.data = []
         self.curr = self.curr.parentNode
         self.parent = self.curr
-        if tag in self.triggers:
+        if self.depth == 1 and tag in self.triggers:
             self.parse = False
